@@ -76,6 +76,15 @@ def cases(tier, seed):
                 sd["skip_posterior_variances"] = True
             elif r < 0.45:
                 sd["fast_computations"] = [rnd.random() < 0.5, rnd.random() < 0.5, rnd.random() < 0.5]
+            # further settings that select other code paths for the same quantity
+            r2 = rnd.random()
+            if r2 < 0.12:
+                sd["memory_efficient"] = True
+            elif r2 < 0.24:
+                sd["trace_mode"] = True
+            elif r2 < 0.5 and sd["max_cholesky_size"] == 0:
+                sd["min_preconditioning_size"] = 1  # pivoted-Cholesky preconditioned CG (default: only from n = 2000)
+                sd["max_preconditioner_size"] = rnd.choice([2, 5, 15])
             kern = KERNELS[(i + rep) % len(KERNELS)] if rep < len(KERNELS) else rnd.choice(KERNELS)
             if sd["max_cholesky_size"] == 0 and kern["k"] == "prod":
                 # product kernels become MulLinearOperators whose matmul goes through Lanczos roots of the factors when
@@ -128,7 +137,8 @@ def cases(tier, seed):
         yield {
             "kernel": rnd.choice([KERNELS[0], KERNELS[2], KERNELS[3], KERNELS[4], KERNELS[10]]), "mean": rnd.choice(MEANS), "lik": rnd.choice(["gauss", "fixed"]), "n": rnd.choice([120, 200]), "d": 2, "ns": 4,
             "pbatch": [], "xbatch": [], "tbatch": [], "large_cg": True,
-            "settings": {"lazily_evaluate_kernels": rnd.random() < 0.7, "max_eager_kernel_size": "below", "max_cholesky_size": 0, "fast_pred_var": False, "detach_test_caches": rnd.random() < 0.5},
+            "settings": {"lazily_evaluate_kernels": rnd.random() < 0.7, "max_eager_kernel_size": "below", "max_cholesky_size": 0, "fast_pred_var": False, "detach_test_caches": rnd.random() < 0.5,
+                         **({"min_preconditioning_size": 1, "max_preconditioner_size": rnd.choice([5, 15])} if j % 2 else {})},
             "seed": rnd.randrange(10**6),
         }
     # directed hostile geometry: duplicated training rows, test point equal to a training point
@@ -171,6 +181,7 @@ def setup(ctx):
 
     attach.count(lz, "lanczos_tridiag", ctx, "path:lanczos_tridiag")
     attach.count(lo.LinearOperator, "cholesky", ctx, "path:cholesky")
+    attach.count(lo.LinearOperator, "pivoted_cholesky", ctx, "path:pivoted_cholesky_preconditioner")
 
 
 def _expand_to(x, batch):
